@@ -50,6 +50,14 @@ theorem gen_keywords : JsonxVal.keywords = ["true", "false", "null"] := by decid
 /-- lexOperator still has its comment and semicolon arms -/
 theorem gen_operator_arms : JsonxVal.commentArm = true ∧ JsonxVal.semiArm = true := by decide
 
+/-- the parser's nesting limit (`maxNestingDepth`, reported as `jsonx.tooDeep`), when there
+    is one, lies above every nesting the harness generates (400) — the model has no depth
+    counter, so the theorems and the correspondence speak about documents nested less
+    deeply than the limit -/
+def modelDepthRange : Nat := 1000
+theorem gen_depth_limit :
+    (JsonxVal.maxNestingDepth.map fun d => decide (modelDepthRange ≤ d)).getD true = true := by decide
+
 /-- all hypotheses at once, for the theorems -/
 theorem gen_cfg_ok : CfgOK genCfg := by decide
 
